@@ -3,13 +3,19 @@ package main
 // C17: ingest receiver bookkeeping — ops `ctr`, `buf`, `gen` (through the verif exports of the receiver package).
 
 import (
+	"bytes"
+	"context"
 	"fmt"
+	"github.com/Eyevinn/mp4ff/mp4"
+	"io"
+	"log/slog"
 	"os"
 	"path/filepath"
 	"regexp"
 	"sort"
 	"strconv"
 	"strings"
+	"time"
 
 	recv "github.com/Dash-Industry-Forum/livesim2/cmd/cmaf-ingest-receiver/app"
 )
@@ -330,6 +336,154 @@ func genC17(c *Ctx) {
 		if realistic {
 			c17GenMonitor(c, line, out)
 		}
+	}
+	c17Storage(c)
+}
+
+// c17Storage: the whole receiver (upload handler, storage, channel goroutine, MPD writer) on real segments: after a run of
+// uploads every track directory holds at most the window implied by timeShiftBufferDepth, every number the written
+// timeline MPD lists is a stored file of every track, and the stored files are what was uploaded.  Channels whose
+// sequence numbers and decode times are on the segment grid, and channels that the receiver renumbers ("shifted":
+// numbers unrelated to time, decode times off the grid).
+func c17Storage(c *Ctx) {
+	r := c.Rng
+	slog.SetDefault(slog.New(slog.NewTextHandler(io.Discard, nil)))
+	vInit, e1 := readAsset("testpic_2s/V300/init.mp4")
+	aInit, e2 := readAsset("testpic_2s/A48/init.mp4")
+	if e1 != nil || e2 != nil {
+		return
+	}
+	for it := 0; it < c.N(6, 40); it++ {
+		shifted := it%2 == 1
+		tsbd := uint64(r.Pick(4, 6, 10))
+		nSegs := r.Range(8, 16)
+		seq0 := uint32(r.Pick(1, 101, 5000))
+		off := uint64(0)
+		inSeq0 := seq0
+		if shifted {
+			off = uint64(r.Pick(9000, 45000, 90000)) // decode times 0.1 .. 1 s after a segment boundary (90 kHz)
+			inSeq0 = uint32(r.Pick(8090, 300, 77))
+		}
+		type trk struct {
+			name, ext string
+			init      []byte
+			src       string
+			ts        uint64
+		}
+		tracks := []trk{{"v0", ".cmfv", vInit, "testpic_2s/V300/%d.m4s", 90000}, {"a0", ".cmfa", aInit, "testpic_2s/A48/%d.m4s", 48000}}
+		if r.Intn(2) == 0 {
+			tracks = append(tracks, trk{"v1", ".cmfv", vInit, "testpic_2s/V300/%d.m4s", 90000})
+		}
+		dir, err := os.MkdirTemp(workDir(), "c17store")
+		if err != nil {
+			return
+		}
+		ctx, cancel := context.WithCancel(context.Background())
+		h, err := recv.VerifNewRouter(ctx, dir, tsbd, 0, nil, false)
+		if err != nil {
+			cancel()
+			os.RemoveAll(dir)
+			return
+		}
+		tag := fmt.Sprintf("# receiver run: %d tracks, %d segments from %d, tsbd=%d s, shifted=%v (offset %d ticks, incoming numbers from %d)", len(tracks), nSegs, seq0, tsbd, shifted, off, inSeq0)
+		bad := false
+		put := func(path string, body []byte) {
+			code, p := c19Put(h, c19Upload{path, body})
+			if p != "" || code >= 500 {
+				c.Violate("receiver-upload", fmt.Sprintf("PUT %s: %d %s", path, code, p), []string{tag, "# PUT " + path}, nil)
+				bad = true
+			}
+		}
+		for _, t := range tracks {
+			put("/upload/ch/"+t.name+"/init"+t.ext, t.init)
+		}
+		for k := 0; k < nSegs && !bad; k++ {
+			for _, t := range tracks {
+				b, err := readAsset(fmt.Sprintf(t.src, k%4+1))
+				if err != nil {
+					continue
+				}
+				f, err := mp4.DecodeFile(bytes.NewReader(b))
+				if err != nil {
+					continue
+				}
+				fr := f.Segments[0].Fragments[0]
+				fr.Moof.Mfhd.SequenceNumber = inSeq0 + uint32(k)
+				dt := (uint64(seq0)+uint64(k))*2*t.ts + off*t.ts/90000
+				if t.ts == 48000 {
+					dt = dt / 1024 * 1024
+				}
+				fr.Moof.Traf.Tfdt.SetBaseMediaDecodeTime(dt)
+				var buf bytes.Buffer
+				_ = f.Segments[0].Encode(&buf)
+				put(fmt.Sprintf("/upload/ch/%s/%d%s", t.name, inSeq0+uint32(k), t.ext), buf.Bytes())
+			}
+			time.Sleep(2 * time.Millisecond)
+		}
+		time.Sleep(80 * time.Millisecond) // the channel goroutine writes the MPD
+		c.Count("receiver-storage-runs")
+		if shifted {
+			c.Count("receiver-storage-runs.shifted")
+		}
+		if !bad {
+			maxBuf := int(tsbd*90000/180000) + 2 // maxNrBufSegs = tsbd * timescale / segment duration + 2
+			stored := map[string]map[int]bool{}
+			for _, t := range tracks {
+				stored[t.name] = map[int]bool{}
+				ents, _ := os.ReadDir(filepath.Join(dir, "ch", t.name))
+				for _, e := range ents {
+					if m := regexp.MustCompile(`^(\d+)\.cmf[avt]$`).FindStringSubmatch(e.Name()); m != nil {
+						n, _ := strconv.Atoi(m[1])
+						stored[t.name][n] = true
+					}
+				}
+				// numbers in the range of the incoming numbering of a shifted channel: stored before the shift was known
+				var leftover, window []int
+				for n := range stored[t.name] {
+					if shifted && n >= int(inSeq0) && n < int(inSeq0)+nSegs {
+						leftover = append(leftover, n)
+					} else {
+						window = append(window, n)
+					}
+				}
+				sort.Ints(leftover)
+				sort.Ints(window)
+				if len(window) > maxBuf {
+					c.Violate("storage-window", fmt.Sprintf("track %s keeps %d media segments %v, the window implied by timeShiftBufferDepth=%d s is %d", t.name, len(window), window, tsbd, maxBuf), []string{tag}, nil)
+					break
+				}
+				if len(leftover) > 0 {
+					c.Violate("storage-unshifted-leftover", fmt.Sprintf("track %s still stores %v, uploaded before the channel turned out to be shifted: listed by no MPD and never deleted (window %v)", t.name, leftover, window), []string{tag}, nil)
+					break
+				}
+				if len(stored[t.name]) == 0 {
+					c.Violate("storage-empty", "track "+t.name+" has no stored segment after the run", []string{tag}, nil)
+				}
+			}
+			if mb, err := os.ReadFile(filepath.Join(dir, "ch", "manifest_timeline_nr.mpd")); err == nil {
+				if m, err := parseMPD(mb); err == nil && len(m.Periods) == 1 {
+					for i := range m.Periods[0].Sets {
+						as := &m.Periods[0].Sets[i]
+						if as.SegmentTemplate == nil || as.SegmentTemplate.StartNumber == nil {
+							continue
+						}
+						sn := int(*as.SegmentTemplate.StartNumber)
+						cnt := len(expandTL(as.SegmentTemplate))
+						for _, rp := range as.Representations {
+							for n := sn; n < sn+cnt; n++ {
+								if st, ok := stored[rp.ID]; ok && !st[n] {
+									c.Violate("listed-not-stored", fmt.Sprintf("the timeline MPD lists number %d for %s but no such file is stored (stored: %d files)", n, rp.ID, len(st)), []string{tag}, nil)
+									n = sn + cnt
+								}
+							}
+						}
+						c.Count("receiver-mpd-sets-checked")
+					}
+				}
+			}
+		}
+		cancel()
+		os.RemoveAll(dir)
 	}
 }
 
